@@ -374,16 +374,20 @@ example : (run exSt [.data exSock.hopIp 999 7 ⟨.dom, [48], 0⟩ exDht, .open4 
 /-- a DATA cell on an own circuit whose payload is a DATA cell (id 1) or a ping (id 6) of this overlay is dropped (fixes
     93232d0, 85766ae); a message type registered to arrive through an exit (here id 18) is handed to its handler; none of
     them touches the exit socket -/
-example : (step { exSt with pfx := 0 :: 2 :: List.replicate 20 7, circs := [⟨555, [57], 4000, false⟩], exitIds := [17, 18] }
+example : (step { exSt with pfx := 0 :: 2 :: List.replicate 20 7, circs := [⟨555, [57], 4000, 0⟩], exitIds := [17, 18] }
     (.data [57] 4000 555 ⟨.v4, zeroHost, 0⟩ ((0 :: 2 :: List.replicate 20 7) ++ [1, 0, 0, 0, 7, 1, 2]))).2 = [] := by decide
-example : (step { exSt with pfx := 0 :: 2 :: List.replicate 20 7, circs := [⟨555, [57], 4000, false⟩], exitIds := [17, 18] }
+example : (step { exSt with pfx := 0 :: 2 :: List.replicate 20 7, circs := [⟨555, [57], 4000, 0⟩], exitIds := [17, 18] }
     (.data [57] 4000 555 ⟨.v4, zeroHost, 0⟩ ((0 :: 2 :: List.replicate 20 7) ++ [6, 0, 0, 0, 7, 1, 2]))).2 = [] := by decide
-example : (step { exSt with pfx := 0 :: 2 :: List.replicate 20 7, circs := [⟨555, [57], 4000, false⟩], exitIds := [17, 18] }
+example : (step { exSt with pfx := 0 :: 2 :: List.replicate 20 7, circs := [⟨555, [57], 4000, 0⟩], exitIds := [17, 18] }
     (.data [57] 4000 555 ⟨.v4, zeroHost, 0⟩ ((0 :: 2 :: List.replicate 20 7) ++ [18, 0, 0, 0, 7, 1, 2]))).2 = [.loc 555 0] := by
   decide
 
+/-- the same holds on an introduction circuit of a hidden seeder (ctype IP_SEEDER = 1): the circuit type does not matter -/
+example : (step { exSt with pfx := 0 :: 2 :: List.replicate 20 7, circs := [⟨555, [57], 4000, 1⟩], exitIds := [17, 18] }
+    (.data [57] 4000 555 ⟨.v4, zeroHost, 0⟩ ((0 :: 2 :: List.replicate 20 7) ++ [1, 0, 0, 0, 7, 1, 2]))).2 = [] := by decide
+
 /-- with DataPayload's id wrongly among the exit ids the model reports the re-entry instead of silently treating it as a local delivery -/
-example : (step { exSt with pfx := 0 :: 2 :: List.replicate 20 7, circs := [⟨555, [57], 4000, false⟩], exitIds := [1, 18] }
+example : (step { exSt with pfx := 0 :: 2 :: List.replicate 20 7, circs := [⟨555, [57], 4000, 0⟩], exitIds := [1, 18] }
     (.data [57] 4000 555 ⟨.v4, zeroHost, 0⟩ ((0 :: 2 :: List.replicate 20 7) ++ [1, 0, 0, 0, 7, 1, 2]))).2 = [.reenter 555] := by
   decide
 
